@@ -25,13 +25,13 @@ theorem root_facts {A B ks : List HTree} {p : Nat} {v : Value}
 
 theorem findList?_root {A B ks : List HTree} {p : Nat} {v : Value} (hp : p ∉ handlesList A) :
     findList? p (A ++ HTree.node p v ks :: B) = some (HTree.node p v ks) := by
-  rw [findList?_append_of_not_mem _ _ _ hp]
-  exact findList?_cons_self (HTree.node p v ks) B
+  rw [ffx_findList?_append_of_not_mem _ _ _ hp]
+  exact ffx_findList?_cons_self (HTree.node p v ks) B
 
 theorem map_mapAt_root {A B ks : List HTree} {p : Nat} {v : Value} (g : HTree → HTree)
     (hA : p ∉ handlesList A) (hB : p ∉ handlesList B) :
     (A ++ HTree.node p v ks :: B).map (mapAt p g) = A ++ g (HTree.node p v ks) :: B := by
-  rw [List.map_append, List.map_cons, map_mapAt_of_not_mem p g A hA, map_mapAt_of_not_mem p g B hB]
+  rw [List.map_append, List.map_cons, ffx_map_mapAt_of_not_mem p g A hA, ffx_map_mapAt_of_not_mem p g B hB]
   simp [mapAt]
 
 theorem replaceKids_split (h : Nat) (g : HTree → List HTree) (k1 k2 : List HTree) (r : HTree)
@@ -53,8 +53,8 @@ theorem map_replaceBelow_root {A B k1 k2 : List HTree} {p : Nat} {v : Value} {r 
     (h1 : r.handle ∉ handlesList k1) :
     (A ++ HTree.node p v (k1 ++ r :: k2) :: B).map (replaceBelow r.handle g) =
       A ++ HTree.node p v (k1 ++ g r ++ k2) :: B := by
-  rw [List.map_append, List.map_cons, map_replaceBelow_of_not_mem _ g A hA,
-    map_replaceBelow_of_not_mem _ g B hB]
+  rw [List.map_append, List.map_cons, ffx_map_replaceBelow_of_not_mem _ g A hA,
+    ffx_map_replaceBelow_of_not_mem _ g B hB]
   simp [replaceBelow, replaceKids_split r.handle g k1 k2 r rfl h1]
 
 namespace RootAt
